@@ -162,6 +162,32 @@ PROPS = {
         "assumptions": ["one model per history in the modelled part; sort comparator assumed a total preorder (C14)"],
         "timeout": 3600,
     },
+    "C07": {
+        "property_module": "AutosarVerif.Properties.C07",
+        "modules": ["AutosarVerif.Properties.C07"],
+        "closure": ['AutosarVerif.Properties.C07', 'AutosarVerif.Lemmas.Range'],
+        "scenario": "world",
+        "scenario_args": ['--prop', 'C07'],
+        "extra_scenarios": [("edits", [])],
+        "rule": 'operation histories on the real library (PROTOCOL.md) as for C03-C06: template build, 20-60 (thorough up to 200) weighted random requests incl. `create`/`named` with explicit positions (inside, at the ends of and next to the reported range), `range` and `valid` queries, `compat` / `setver` for every file against 3 target versions; every request is answered by the real library and by the Lean model and compared verbatim; ' + "scenario `edits` (direct oracle on the real library): per case a version, a parent element type reached from the root through the editing API and a list of calls (create / create-at every position of the range and its neighbours / named / copy also across versions and from a parent of another type / move / remove / set data / set and remove attribute, values from and outside the value spaces); after every call an independent reading of the specification checks order, multiplicity, permitted content and values, and the serialized file is reloaded leniently; `check_range` calls compare the reported range and the allowed list with what can actually be created.",
+        "trusted_base": ["hand model of calc_element_insert_range / create_sub_element (Model/WorldOps.lean), tied by the correspondence run",
+                         "harness/src/world.rs (interpreter), harness/src/edits.rs (independent reading of the specification, oracles, shrinking)"],
+        "assumptions": ["CHOICE groups and groups nested in sequences: correspondence and oracle only"],
+        "timeout": 3600,
+    },
+    "C17": {
+        "property_module": "AutosarVerif.Properties.C17",
+        "modules": ["AutosarVerif.Properties.C17"],
+        "closure": ['AutosarVerif.Properties.C17', 'AutosarVerif.Lemmas.Compat'],
+        "scenario": "world",
+        "scenario_args": ['--prop', 'C17'],
+        "extra_scenarios": [("edits", [])],
+        "rule": 'operation histories on the real library (PROTOCOL.md) as for C03-C06: template build, 20-60 (thorough up to 200) weighted random requests incl. `create`/`named` with explicit positions (inside, at the ends of and next to the reported range), `range` and `valid` queries, `compat` / `setver` for every file against 3 target versions; every request is answered by the real library and by the Lean model and compared verbatim; ' + "scenario `edits` (direct oracle on the real library): documents built through the editing API and purpose-built documents around elements, attributes and enumeration values with partial version masks, single- and two-file models, every source/target version pair of the case: (A) the check lists nothing <=> the text relabelled with the target version loads strictly, (B) the mask contains the target <=> nothing listed, (C) set_version succeeds <=> nothing listed, changes no content, and the re-serialized file loads strictly.",
+        "trusted_base": ["hand model of check_version_compatibility / recalc_element_type / set_version (Model/Compat.lean), tied by the correspondence run",
+                         "harness/src/world.rs (interpreter), harness/src/edits.rs (oracles A, B, C, shrinking)"],
+        "assumptions": ["the strict loader has no Lean model at element level: 'passes strict validation' is decided on the library"],
+        "timeout": 3600,
+    },
     "C11": {
         "property_module": "AutosarVerif.Properties.C11",
         "modules": ["AutosarVerif.Properties.C11"],
@@ -217,7 +243,7 @@ PROPS = {
         "closure": ['AutosarVerif.Properties.C12', 'AutosarVerif.Lemmas.Lexer', 'AutosarVerif.Lemmas.WorldOps'],
         "scenario": 'world',
         "scenario_args": ['--prop', 'C12'],
-        "extra_scenarios": [("conc", [])],
+        "extra_scenarios": [("conc", []), ("edits", [])],
         "rule": 'all history kinds of the world scenario with catch_unwind around every request and a per-history watchdog; oracle: no answer is `panic`, `timeout` or `err ParentElementLocked`; handles are drawn from live, removed and foreign objects.',
         "trusted_base": ['hand model of element.rs / elementraw.rs / autosarmodel.rs (Model/World*.lean), tied by the correspondence run', 'harness/src/world.rs: interpreter, canonical dump, oracles, shrinking'],
         "assumptions": ['stack depth and real-time behaviour are outside the model'],
